@@ -48,3 +48,20 @@ package layers
 //@   loop 0: invariant plen + dhcpRest(d.Options, rangeindex+1) == 241 + dhcpRest(d.Options, 0)
 //@   loop 2: invariant -1 <= rangeindex && rangeindex < len(d.Options) && 240 <= offset
 //@   loop 2: invariant dhcpRest(d.Options, rangeindex+1) >= 0 && offset + dhcpRest(d.Options, rangeindex+1) + 1 == len(data)
+
+// ---- GRE: the routing list is written entry by entry; every reserved byte is written (C07) -------------------------
+//@ spec rec sreLen(r *GRERouting) int = r == nil ? 0 : 4 + r.SRELength + (sreLen(r.Next) > 0 ? sreLen(r.Next) : 0)
+
+// resource bound (assumed entry precondition, reported in evidence): the source route list is finite and short enough
+// for its size to be an int (a cyclic list makes the real function loop forever).
+//@ func (g *GRE) SerializeTo(b gopacket.SerializeBuffer, opts gopacket.SerializeOptions) error
+//@   props C07
+//@   requires sreLen(g.GRERouting) <= 1073741824 && len(sbview(b)) <= 1000000000000
+//@   loop 0: invariant sreLen(r) >= 0 && sreLen(r) <= 1073741824
+//@   loop 0: invariant size >= 8
+//@   loop 0: invariant size + sreLen(r) == 8 + (g.KeyPresent ? 4 : 0) + (g.SeqPresent ? 4 : 0) + sreLen(g.GRERouting)
+//@   loop 1: invariant 8 <= offset && offset + sreLen(sre) + 4 + (g.AckPresent ? 4 : 0) == len(buf) && sreLen(sre) >= 0
+//@   loop 1: invariant inited(buf, 0, offset)
+//@   loop 2: invariant 0 <= i && i <= len(info)
+//@   loop 2: invariant inited(buf, 0, offset + 4 + i)
+//@   loop 2: decreases len(info) - i
